@@ -247,11 +247,41 @@ def make_pass(pname, bs):
     raise MachineryError('unknown partitioner ' + pname)
 
 
+class _Limit:
+    """Wall-clock limit for one run of the code under test (a pass that never returns must not hang the check)."""
+
+    def __init__(self, seconds):
+        self.seconds = seconds
+
+    def _fire(self, *_):
+        raise TimeoutError('no result after %d s' % self.seconds)
+
+    def __enter__(self):
+        import signal
+        import threading
+        self.on = threading.current_thread() is threading.main_thread()
+        if self.on:
+            self.old = signal.signal(signal.SIGALRM, self._fire)
+            signal.alarm(self.seconds)
+        return self
+
+    def __exit__(self, *a):
+        import signal
+        if self.on:
+            signal.alarm(0)
+            signal.signal(signal.SIGALRM, self.old)
+        return False
+
+
+PASS_TIME_LIMIT = int(os.environ.get('VERIF_C08_PASS_LIMIT', '900'))
+
+
 def run_pass(p, circ):
     from bqskit.compiler.passdata import PassData
     co = p.run(circ, PassData(circ))
     try:
-        co.send(None)
+        with _Limit(PASS_TIME_LIMIT):
+            co.send(None)
     except StopIteration:
         return
     co.close()
@@ -350,11 +380,11 @@ def gen_random(rng, max_nq, max_ops, blocked_prob=0.15):
 
 QP_CONFIGS = {
     # name: (NQ, MaxOps quick, MaxOps thorough, BlockSizes, GateArities, BarrierMode, EmitMod quick, EmitMod thorough, Prefix)
-    'q3': (3, 4, 5, '{2, 3}', '{1, 2, 3}', 'any', 20, 16, 'none'),
-    'q4': (4, 3, 4, '{2, 3}', '{1, 2, 3}', 'any', 16, 30, 'none'),
+    'q3': (3, 4, 5, '{2, 3}', '{1, 2, 3}', 'any', 30, 16, 'none'),
+    'q4': (4, 3, 4, '{2, 3}', '{1, 2, 3}', 'any', 24, 30, 'none'),
     # enough operations for num_closed to reach the code's threshold of 5 inside the main loop: three one-qudit bins closed by
     # a three-qudit gate (block size 2), then every continuation
-    'deep': (3, 7, 8, '{2}', '{1, 2, 3}', 'any', 6, 12, 'close3'),
+    'deep': (3, 7, 8, '{2}', '{1, 2, 3}', 'any', 10, 12, 'close3'),
 }
 QP_ACTIONS = ['StepBarrier', 'StepGateNewBin', 'StepGateJoinBin', 'MidFlush', 'Finalize']
 
@@ -521,13 +551,13 @@ def run(ctx: Ctx) -> Outcome:
                 jobs.append((recipe_of(n, circ_out), 'quick', bs, 0))
                 srcs.append('l2cex')
         # (2) the other partitioners on a seeded sample of the enumerated circuits
-        per = 250 if ctx.quick else 2500
+        per = 150 if ctx.quick else 2500
         for pn in PARTITIONERS[1:]:
             for (bs, n, cj) in rng.sample(enum_keys, min(per, len(enum_keys))):
                 jobs.append((recipe_of(n, json.loads(cj)), pn, bs, rng.randrange(2 ** 31)))
                 srcs.append('enum')
         # (3) seeded random circuits, all partitioners
-        nrand = 120 if ctx.quick else 700
+        nrand = 90 if ctx.quick else 700
         for pn in PARTITIONERS:
             for i in range(nrand):
                 big = i % 6 == 5
